@@ -19,6 +19,8 @@ From RX.Model Require Import Base CharClass Stream Tokenizer Doc Builder Parse A
 From RX.Spec Require Cst.
 From RX.Spec Require CstText CstEnt.
 From RX.Proofs Require Import BorrowLocal BorrowTokenizer BorrowParse TextMerge CstRangeDefs CstRangeMain CstRangeTDefs CstRangeTMain CstEntDoc CstRangeEDefs CstRangeEMain.
+From RX.Spec Require CstFull.
+From RX.Proofs Require CstRangeFDefs CstRangeFS2.
 Open Scope N_scope.
 
 (* ---- Proofs/BorrowLocal.v ---- *)
@@ -154,3 +156,30 @@ Proof. exact parse_render_storage_e. Qed.
 Print Assumptions C18_parse_render_storage_e.
 
 End G6.
+
+(* ---- Proofs/CstRangeFS2.v ---- *)
+Module G7.
+Import RX.Spec.CstFull. Import RX.Proofs.CstRangeFDefs. Import RX.Proofs.CstRangeFS2.
+Theorem C18_parse_render_storage_f2 :
+  forall (c : S2.doc) (opt : options) d,
+  S2.wf_doc c = true ->
+  N.of_nat (length (S2.sem c)) < nodes_limit opt ->
+  N.of_nat (length (S2.render c)) <= u32_max ->
+  S2.distinct_decls_le c (N.to_nat 65535) ->
+  1 + N.of_nat (S2.ns_cost c) <= u32_max ->
+  parse (S2.render c) opt = Ok d ->
+  (* every node holds exactly what [fshapes2] says: a tag name is the slice of the written LOCAL part
+     (after the colon); comments, PIs and text as in CstRangeT *)
+  Forall2 stored_as_f (map nd_kind (tl (d_nodes d))) (fshapes2 c) /\
+  (* every ordinary attribute: the local name is the slice of the written local part; the value is
+     Borrowed with the span between the quotes, or Owned with the normalised value *)
+  Forall2 attr_stored_f (d_attrs d) (fattr_spans2 c) /\
+  (* the namespace table: the built-in xml entry (the only one with static strings), then one entry
+     per distinct declared (prefix, URI) pair, the first declaration of the pair in document order:
+     the prefix is the slice of the written prefix; the URI is Borrowed with the written span of the
+     value when that is written without '&', TAB, LF, CR, otherwise Owned with the normalised value *)
+  d_ns_values d = xml_ns :: map ns_entry_of (fns_table2 c).
+Proof. exact parse_render_storage_f2. Qed.
+Print Assumptions C18_parse_render_storage_f2.
+
+End G7.
